@@ -426,6 +426,7 @@ func (x *c12World) exec(cs c12Case, op c12Op, rec *vx.Case) c12Step {
 	}
 	res := w.Deliver(c, 0, msg)
 	st.ok = res.OK
+	debugf("C12 %+v -> ok=%v h=%d err=%v", op, res.OK, h, res.Err)
 	x.sent = append(x.sent, sentRec{Chain: c, Kind: op.K, A: a, H: h, Msg: msg})
 	x.noteNew(c, a, op.K, res.OK)
 	return st
